@@ -168,7 +168,7 @@ def replay(d):
     ctx = make_ctx(d['item'])
     c = Counter()
     if d.get('policy'):
-        x = explore.run_once(ctx, [], policy=prims.PriorityPolicy(d['policy'][1]))
+        x = explore.run_once(ctx, [], policy=prims.FairPolicy() if d['policy'][1] == '@fair' else prims.PriorityPolicy(d['policy'][1]))
         ctx.judge(x, c, d['policy'])
     else:
         x = explore.run_once(ctx, d.get('choices') or [])
